@@ -239,7 +239,16 @@ func (s *metricSchemaStore) Flush() error {
 	if err != nil {
 		return err
 	}
+	// number of fields/tag keys of each schema at the time it was written: the schema objects are
+	// shared with the mutable store, so items can be appended while the kv flusher commits.
+	type written struct{ fields, tagKeys int }
+	writtenItems := make(map[uint32]written)
 	err = s.immutable.WalkEntry(func(key uint32, value *metric.Schema) error {
+		// appenders (genFieldID/genTagKeyID) hold the write lock
+		s.lock.RLock()
+		defer s.lock.RUnlock()
+
+		writtenItems[key] = written{fields: len(value.Fields), tagKeys: len(value.TagKeys)}
 		if !value.NeedWrite() {
 			return nil
 		}
@@ -259,9 +268,10 @@ func (s *metricSchemaStore) Flush() error {
 
 	verifhook.Yield("index.schema.flush.beforeMark")
 	s.lock.Lock()
-	// mark schema persisted
-	_ = s.immutable.WalkEntry(func(_ uint32, value *metric.Schema) error {
-		value.MarkPersisted()
+	// mark persisted what was written (not what was appended since)
+	_ = s.immutable.WalkEntry(func(key uint32, value *metric.Schema) error {
+		w := writtenItems[key]
+		value.MarkPersistedPrefix(w.fields, w.tagKeys)
 		return nil
 	})
 	s.immutable = nil
